@@ -212,6 +212,8 @@ BUCKETS = grid.Grid("buckets", TOGGLES, free=BASE + c01.OPT_FREE)
 
 
 def judge(w):
+    if "history" in w:
+        return core.judge_history(PROP + ".pure", w, c01.pure_thunk)
     if w.get("kind") == "bucket":
         full = BUCKETS.default_case()
         full.update(w["case"])
@@ -227,6 +229,8 @@ def fails_fn(clause, w):
 
 
 def simplify(w):
+    if "history" in w:
+        return []
     g = BUCKETS if w.get("kind") == "bucket" else c01.ALL
     out = g.wsimplify(w)
     if w.get("kind") == "bucket":
@@ -252,5 +256,7 @@ def run(chk):
     n0 = chk.cov["states"]
     f2, tags2, ind = c01.explore(chk, PROP, evaluate_idem, fails_fn, shrink=(c01.ALL.wit, simplify, fails_fn))
     chk.cov["transitions"] = n0 * 2 + (chk.cov["states"] - n0) * 5
+    chk.rule.append("H2: every ordered pair of %d canonicalize_url calls from a reset module state." % len(c01.pure_label_cases()))
+    core.explore_pairs(chk, PROP + ".pure", [(l, c01.pure_thunk(l)) for l in c01.pure_label_cases()])
     chk.clause(PROP + ".idem", checked=ind, nontrivial=tags2.get("changed", 0))
     chk.clause(PROP + ".modes", checked=ind, nontrivial=tags2.get("changed", 0))
